@@ -103,6 +103,66 @@ try:
             return out
 
 
+        def t_match(mode: str, a: float, b: float) -> float:
+            match mode:
+                case "x":
+                    return a
+                case "y" | "z":
+                    return b
+                case _:
+                    raise ValueError("bad")
+
+
+        def t_match_pair(t: typing.Optional[float], p: typing.Optional[float]) -> int:
+            match (t is not None, p is not None):
+                case (True, True):
+                    raise ValueError("both")
+                case (True, False):
+                    return 1
+                case (False, True):
+                    return 2
+                case _:
+                    return 0
+
+
+        def t_late(a: float, b: float) -> float:
+            fs = [lambda: v for v in (a, b)]
+            return fs[0]()
+
+
+        def t_early(a: float, b: float) -> float:
+            fs = [lambda v=v: v for v in (a, b)]
+            return fs[0]()
+
+
+        def _gen(n: int):
+            for i in range(n):
+                yield i * 2
+
+
+        def t_gen(n: int) -> typing.List[int]:
+            return [x + 1 for x in _gen(n)]
+
+
+        def t_twice(x: float) -> float:
+            big = x > 1
+            if big:
+                y = x
+            if big:
+                return y
+            return 0.0
+
+
+        def t_countdown(x: float) -> float:
+            left = 100
+            while x > 1:
+                if left == 0:
+                    raise ValueError("no")
+                left -= 1
+                x = x / 2
+            return x
+
+
         def t_switch_off():
             attr.validators.set_disabled(True)
 
@@ -136,6 +196,19 @@ try:
     ia = [x for x in analyse(repo, repo.find_function("t_inv_a"), cfg) if x.kind == "return"]
     ib = [x for x in analyse(repo, repo.find_function("t_inv_b"), cfg) if x.kind == "return"]
     assert len(ia) == len(ib) == 1 and key_equiv(val_key(ia[0].value.per_iter[0]), val_key(ib[0].value.per_iter[0])), (ia, ib)
+    o = analyse(repo, repo.find_function("t_match"), cfg)
+    assert sorted(x.kind for x in o) == ["raise", "return", "return", "return"], o
+    o = analyse(repo, repo.find_function("t_match_pair"), cfg)
+    assert sorted((x.kind, str(getattr(x.value, "r", ""))) for x in o) == [("raise", ""), ("return", "0"), ("return", "1"), ("return", "2")], o
+    o = analyse(repo, repo.find_function("t_late"), cfg)
+    assert len(o) == 1 and o[0].value.r == Rat.sym("b"), o          # closures in a comprehension see the LAST binding
+    o = analyse(repo, repo.find_function("t_early"), cfg)
+    assert len(o) == 1 and o[0].value.r == Rat.sym("a"), o          # default values are evaluated when the lambda is created
+    o = analyse(repo, repo.find_function("t_gen"), cfg)
+    g = famify(o[0].value)
+    assert len(o) == 1 and g.kind == "fam" and "2" in str(g.elem.r), o
+    o = analyse(repo, repo.find_function("t_twice"), cfg)
+    assert len(o) == 2 and all(x.kind == "return" for x in o), o    # a stored test used twice is one decision, not two
     from sa.props.c18 import validator_switches
     assert len(validator_switches(repo)) == 1
     from sa.props.c10 import counter_bounded
@@ -143,6 +216,9 @@ try:
     f = repo.find_function("t_forever")
     w = [n for n in _ast.walk(f.node) if isinstance(n, _ast.While)][0]
     assert counter_bounded(f, w)[0] is False
+    f = repo.find_function("t_countdown")
+    w = [n for n in _ast.walk(f.node) if isinstance(n, _ast.While)][0]
+    assert counter_bounded(f, w)[0] is True, counter_bounded(f, w)
 finally:
     shutil.rmtree(d, ignore_errors=True)
     os.environ.pop("VERIF_REPO", None)
